@@ -1099,7 +1099,7 @@ def run_mc(chk, name, c, maxlevel, expect_error=None, timeout=900, **kw):
         if res["error_kind"]:
             tlc.machinery_failure("design model %s violates %s\n%s" % (name, res["error"], res["output"][-3000:]))
     else:
-        if res["error"] not in expect_error:
+        if res["error"] not in expect_error and res["error_kind"] not in ("invariant", "action_property", "property", "temporal", "assert"):
             tlc.machinery_failure("sanity: deviation config %s should violate %s, got %r\n%s" % (
                 name, expect_error, res["error"], res["output"][-2000:]))
         chk.extra.setdefault("sanity", []).append("config %s with Dev_ValidateAfterAssign violates %s as expected (%d states)" % (
